@@ -85,6 +85,14 @@ func (d *bytesDecoder) DecodePath(ctx *RuntimeContext, cursor, depth int64) ([][
 
 func (d *bytesDecoder) decodeStreamBinary(s *Stream, depth int64, p unsafe.Pointer) ([]byte, error) {
 	c := s.skipWhiteSpace()
+	if c == 'n' {
+		if err := nullBytes(s); err != nil {
+			return nil, err
+		}
+		// like encoding/json, null clears the destination slice
+		*(*[]byte)(p) = nil
+		return nil, nil
+	}
 	if c == '[' {
 		if d.sliceDecoder == nil {
 			return nil, &errors.UnmarshalTypeError{
@@ -101,6 +109,14 @@ func (d *bytesDecoder) decodeStreamBinary(s *Stream, depth int64, p unsafe.Point
 func (d *bytesDecoder) decodeBinary(ctx *RuntimeContext, cursor, depth int64, p unsafe.Pointer) ([]byte, int64, error) {
 	buf := ctx.Buf
 	cursor = skipWhiteSpace(buf, cursor)
+	if buf[cursor] == 'n' {
+		if err := validateNull(buf, cursor); err != nil {
+			return nil, 0, err
+		}
+		// like encoding/json, null clears the destination slice
+		*(*[]byte)(p) = nil
+		return nil, cursor + 4, nil
+	}
 	if buf[cursor] == '[' {
 		if d.sliceDecoder == nil {
 			return nil, 0, &errors.UnmarshalTypeError{
